@@ -345,10 +345,10 @@ def conformance(tmp, out_files, tag, max_scen=400, budget_s=None):
         consts = dict(MinDelay=3000, MaxRADelay=500, InitCap=16000, InitCount=3, MinIv=rs(mn), MaxIv=rs(mx), ChanCap=16, Retries=5,
                       BackoffUnit=50, UnicastOnly="TRUE" if unicast else "FALSE", MonitorMode="TRUE" if monmode else "FALSE", CfgLife=cfglife, Hosts="{}", Kinds="{}", MaxIn=0, DebugK=0,
                       MaxT=0, MaxFlips=0, MaxHolds=0, WriteFaults="TRUE", LinkFaults="TRUE", AllowCancel="TRUE", Sec=1000, MaxQueries=0, MaxSessions=4, FwdFaults="TRUE")
-        for b in range(0, len(lst), 100):
+        for b in range(0, len(lst), 50):
             if budget_s is not None and time.time() - t_start > budget_s:
                 break
-            part = lst[b:b + 100]
+            part = lst[b:b + 50]
             total += len(part)
             wd = vf.mktmp("vf-conf-")
             rows = [e for evs in part for e in evs]
@@ -359,7 +359,14 @@ def conformance(tmp, out_files, tag, max_scen=400, budget_s=None):
                 for k, v in consts.items():
                     f.write("  %s = %s\n" % (k, v))
                 f.write("INVARIANT Explained\nCHECK_DEADLOCK FALSE\n")
-            r = vf.tlc("AdvConf", cfg, workdir=wd, timeout=900, heap="6g")
+            try:
+                r = vf.tlc("AdvConf", cfg, workdir=wd, timeout=900, heap="6g")
+            except vf.Infra as ex:
+                # the hidden-step search of some scenario in this batch did not finish: conformance is left undecided for
+                # the batch (it is not a verdict either way, and never fails the check)
+                stats.append({"group": str(key), "scenarios": len(part), "undecided": True, "why": str(ex)[:200]})
+                total -= len(part)
+                continue
             if not r["ok"]:
                 raise vf.Infra("conformance run failed: %s" % r["violation"])
             stats.append({"group": str(key), "scenarios": len(part), "states": r["states"], "wall_s": round(r["wall_s"], 1)})
